@@ -212,45 +212,6 @@ theorem foldl_applyOut_bot_susp (wt : K → K) (ct : K) (outs : List Out) :
   intro w
   exact (foldl_applyOut_bot_crashed wt ct outs w).1
 
-theorem withReg_suspended (w : World K) (f : (List (K × K × K) → K × K) → Reg K) :
-    (w.withReg f).suspended = w.suspended := by
-  unfold World.withReg
-  simp only []
-  exact ite_proj (fun x : World K => x.suspended) _ _ _ _ rfl rfl
-
-theorem applyOut_suspended (wt : K → K) (ct : K) (w : World K) (o : Out) :
-    (World.applyOut wt ct w o).suspended = w.suspended := by
-  unfold World.applyOut
-  cases o <;> simp only []
-  all_goals first
-    | (split <;> rfl)
-    | skip
-  · split
-    · rfl
-    · split
-      · exact withReg_suspended _ _
-      · exact withReg_suspended _ _
-  · split
-    · rfl
-    · exact withReg_suspended _ _
-  · split
-    · rfl
-    · split
-      · split
-        · split <;> rfl
-        all_goals rfl
-      · split
-        · split
-          · split <;> rfl
-          all_goals rfl
-        · rfl
-
-theorem foldl_applyOut_suspended (wt : K → K) (ct : K) (outs : List Out) :
-    ∀ (w : World K), (outs.foldl (World.applyOut wt ct) w).suspended = w.suspended := by
-  induction outs with
-  | nil => intro w; rfl
-  | cons o rest ih => intro w; simp only [List.foldl_cons]; rw [ih, applyOut_suspended]
-
 /-- An event that is not Look To leaves an idle Wheatley idle. -/
 theorem deliver_idle (wt : K → K) (w : World K) (e : Ev) (hq : NotLookTo e) (h : Idle w) :
     Idle (World.deliver wt w e) := by
